@@ -95,7 +95,7 @@ func run(c *lib.Ctx) {
 		j := jobs[k]
 		rng := c.CaseRng("case", j.idx)
 		in := caseIn{Idx: j.idx, Reps: reps, Seed: rng.U64(), Kind: kindOf(rng, j.idx), Tier: c.Tier, Bound: 10000}
-		res := c.Child("run", in, lib.ChildOpts{Race: true, Timeout: 8 * time.Minute})
+		res := c.Child("run", in, lib.ChildOpts{Race: true, Timeout: 20 * time.Minute})
 		reports := lib.ParseRaceLogs(res.RaceLogs)
 		dec, oth := lib.RaceVerdict(reports, []string{repoRoot() + "/queue/"})
 		mu.Lock()
